@@ -16,6 +16,7 @@ THEOREMS = [
     "Pyribs.GenFProofs.objsum_delta_from_source",
     "Pyribs.GenFProofs.objsum_new_from_source",
     "Pyribs.GenFProofs.stats_max_from_source",
+    "Pyribs.GenFProofs.transform_chains_from_source",
     "Pyribs.GenFProofs.stats_match",
     "Pyribs.GenFProofs.cqd_value_matches",
     "Pyribs.C06.sum_point_update",
